@@ -5,11 +5,19 @@
      agree   : the model (Proto.handle_conn on the same bytes) predicts the same sequence
                of (frame kind, code / response) and the same number of enqueued messages;
      monitor : the property evaluated on the recording alone (no model): daemon alive,
-               bystander unaffected, every error code known and allowed for the commands
-               that can have produced it, a fatal error is the last frame before the close,
-               and the number of messages that appeared in the daemon is exactly the sum
-               of the sizes of the publishes that were answered OK (so a rejected
-               PUB/DPUB/MPUB left nothing and an MPUB is all-or-nothing).
+               bystander unaffected; the generator's command list is walked together with
+               the recorded frames against the protocol TABLE (ProtoSpec.in_state /
+               next_kind / ok_frame / may_return): a command that is valid in the state
+               the connection is in must SUCCEED (its response frame, or silence for
+               RDY/FIN/REQ/TOUCH/NOP; FIN/REQ/TOUCH of a message held by this connection
+               succeed in the subscribed AND the closing state), any other one must get
+               its documented error (the non-fatal E_FIN/REQ/TOUCH_FAILED for a message
+               not in flight, else a fatal refusal code of its row), the first fatal error
+               is followed by the close and nothing else; the messages that appeared in
+               the daemon are exactly those of the publishes answered OK (a rejected
+               PUB/DPUB/MPUB left nothing, an MPUB is all-or-nothing); and the consumed
+               channel's /stats afterwards show exactly the effect of the accepted
+               FIN/REQ commands (messages left, deferred, requeue_count, in flight).
    No proofs here. *)
 From Coq Require Import List NArith ZArith Bool.
 From NSQV Require Import gen.Consts model.Judge model.Names model.Num model.Proto model.ProtoSpec.
@@ -32,9 +40,9 @@ Inductive case :=
                                                  heartbeats dropped), then OClosed at EOF *)
        (enq : Z)                              (* sum of topic message_count, after minus before *)
        (alive bystander : bool)
-       (intent : option (list (N * Z * bool)))  (* generator's commands: (index in all_cmds, messages, within limits) *)
-       (held : option (Z * Z)).               (* (messages that must still be held by the channel for this
-                                                 client after the case, in-flight + deferred as /stats shows them) *)
+       (intent : option (list (N * Z * bool * Z)))  (* generator's commands: (index in all_cmds, n, within limits, slot), see [icmd] *)
+       (chan : option (Z * Z * Z * Z)).       (* the consumed channel in /stats after the case: messages left (topic +
+                                                 channel depth + in flight + deferred), in flight, deferred, requeue_count *)
 
 Definition mk_cfg (max_msg max_body max_rdy : Z) (deflate_on snappy_on tls_on tls_required : bool) : cfg :=
   let d := default_cfg max_msg max_body max_rdy in
@@ -124,97 +132,127 @@ Definition count_enq (os : list out) : Z :=
   len (filter (fun o => match o with Enqueue _ _ _ => true | _ => false end) os).
 
 (* ------------------------------------------------------------------ the monitor *)
-Definition is_ok_frame (f : oframe) : bool := match f with OResp _ => true | _ => false end.
-Definition n_ok (fs : list oframe) : nat := length (filter is_ok_frame fs).
+(* The property on the recording alone (no model).  The generator states, for every
+   command it wrote, an [icmd] = (index in all_cmds, n, valid, slot):
+     valid : parameters, names, sizes, numbers and option values are within what the
+             protocol and the daemon's limits allow (SUB: and heartbeats are not disabled);
+             nothing about the connection state;
+     n     : publishes: the number of messages carried; REQ: 1 when the delay is positive
+             (the message then waits in the deferred set), 0 otherwise;
+     slot  : FIN / REQ / TOUCH: s+1 when the id is the one of the s-th message DELIVERED on
+             this connection, 0 when it names no delivered message; SUB: 1 when the
+             (topic, channel) is the one that refuses one more consumer.
+   [expected] is the protocol table read as a function: what the protocol defines for this
+   command in this connection state; [align] walks the commands and the recorded frames
+   together: every command must have been answered exactly so (valid commands SUCCEED in
+   every state in which they are valid; the others get their documented error), up to the
+   first fatal error, which must be followed by the close and nothing else. *)
+Definition icmd := (N * Z * bool * Z)%type.
 
-(* commands that answer every execution with exactly one frame *)
-Definition one_frame (c : cmd) : bool :=
-  match c with CIdentify | CSub | CPub | CMpub | CDpub | CCls | CAuth => true | _ => false end.
-Definition is_publish (c : cmd) : bool :=
-  match c with CPub | CMpub | CDpub => true | _ => false end.
+Inductive expect :=
+| XResp                       (* succeeds with its response frame *)
+| XSilent                     (* succeeds without a frame *)
+| XSoft (c : code)            (* the non-fatal error; processing continues *)
+| XFatal (cs : list code).    (* one of these fatal errors, then the close *)
 
-(* The recording tells how many one-frame commands were answered without an error: [m]
-   response frames, so the first [m] one-frame commands of the stream were accepted, and
-   every command in front of the [m]-th of them was executed without a fatal error (a
-   fatal error ends the connection).  [walk] replays that prefix against the protocol
-   TABLE (ProtoSpec.in_state / next_kind) and the generator's statement of which commands
-   are within the limits: it returns whether every executed command was acceptable, and
-   the number of messages the accepted publishes carry.  None = fewer than [m] one-frame
-   commands were sent (an answer without a question). *)
-Definition limited (c : cmd) : bool :=
-  match c with CIdentify | CSub | CPub | CMpub | CDpub => true | _ => false end.
-
-(* a zero-frame command that was executed without a fatal error: in state, and (RDY while
-   subscribed; FIN / REQ / TOUCH always) with parameters the protocol admits: a message id
-   of exactly 16 bytes, a numeric delay, a count within 0..max-rdy-count *)
-Definition zero_ok (tlsreq : bool) (c : cmd) (k : skind) (valid : bool) : bool :=
-  in_state c k && negb tlsreq
-  && match c, k with
-     | CRdy, SSubscribed => valid             (* after CLS a RDY is ignored *)
-     | CFin, _ | CReq, _ | CTouch, _ => valid
-     | _, _ => true
-     end.
-
-(* [full]: the connection ended without a fatal error, so EVERY command sent was executed *)
-Fixpoint walk (tlsreq full : bool) (m : nat) (k : skind) (intent : list (N * Z * bool)) : option (bool * Z) :=
-  match intent with
-  | [] => match m with O => Some (true, 0) | S _ => None end
-  | (ci, n, valid) :: r =>
-    let c := cmd_at ci in
-    if one_frame c then
-      match m with
-      | O => Some (negb full, 0)     (* full: an unanswered one-frame command *)
-      | S m' =>
-        match walk tlsreq full m' (next_kind c k) r with
-        | Some (ok, s) =>
-            Some (ok && in_state c k && (valid || negb (limited c))
-                     && (negb tlsreq || match c with CIdentify => true | _ => false end)
-                     && negb (match c with CAuth => true | _ => false end),
-                  if is_publish c then s + n else s)
-        | None => None
-        end
-      end
-    else
-      match m, full with
-      | O, false => Some (true, 0)
-      | _, _ =>
-        match walk tlsreq full m k r with
-        | Some (ok, s) => Some (ok && zero_ok tlsreq c k valid, s)
-        | None => None
-        end
-      end
+(* the codes with which a command REFUSES its parameters or body (the *_FAILED codes are
+   the core's, the AUTH ones an auth server's) *)
+Definition refusal (c : code) : bool :=
+  match c with
+  | E_INVALID | E_BAD_BODY | E_BAD_TOPIC | E_BAD_CHANNEL | E_BAD_MESSAGE | E_IDENTIFY_FAILED => true
+  | _ => false
   end.
+Definition refusal_codes (c : cmd) : list code := filter refusal (may_return c).
 
-(* the commands that can have produced the fatal error: those after the [m]-th one-frame
-   command up to and including the next one-frame command *)
-Fixpoint window (m : nat) (intent : list (N * Z * bool)) : list cmd :=
-  match intent with
-  | [] => []
-  | (ci, _, _) :: r =>
-    let c := cmd_at ci in
-    match m with
-    | O => if one_frame c then [c] else c :: window O r
-    | S m' => if one_frame c then window m' r else window m r
-    end
+Definition soft_code (c : cmd) : code :=
+  match c with CFin => E_FIN_FAILED | CReq => E_REQ_FAILED | _ => E_TOUCH_FAILED end.
+
+(* [live]: the slot names a message delivered on this connection and not yet finished or
+   requeued by it *)
+Definition mem_z (x : Z) (l : list Z) : bool := existsb (Z.eqb x) l.
+Definition live (ndeliv : Z) (dead : list Z) (slot : Z) : bool :=
+  (1 <=? slot) && (slot <=? ndeliv) && negb (mem_z slot dead).
+
+Definition expected (tlsreq : bool) (k : skind) (ndeliv : Z) (dead : list Z)
+           (c : cmd) (valid : bool) (slot : Z) : expect :=
+  if tlsreq && negb (match c with CIdentify => true | _ => false end) then XFatal [E_INVALID]
+  else if negb (in_state c k) then XFatal [E_INVALID]          (* CUnknown is in no state *)
+  else match c with
+       | CNop => XSilent
+       | CCls => XResp
+       | CRdy => match k with
+                 | SClosing => XSilent                           (* ignored after CLS *)
+                 | _ => if valid then XSilent else XFatal [E_INVALID]
+                 end
+       | CFin | CReq | CTouch =>
+           if valid then (if live ndeliv dead slot then XSilent else XSoft (soft_code c))
+           else XFatal [E_INVALID]
+       | CSub => if valid then (if slot =? 0 then XResp else XFatal [E_SUB_FAILED])
+                 else XFatal (refusal_codes CSub)
+       | CAuth => if valid then XFatal [E_AUTH_DISABLED]        (* a daemon without an auth server *)
+                  else XFatal (refusal_codes CAuth)
+       | CIdentify | CPub | CMpub | CDpub => if valid then XResp else XFatal (refusal_codes c)
+       | CUnknown => XFatal [E_INVALID]
+       end.
+
+Definition resp_ok (c : cmd) (r : oresp) : bool :=
+  match ok_frame c, r with
+  | FOk, OOk | FCloseWait, OCloseWait | FOkOrJson, OOk | FOkOrJson, OJson _ _ _ _ _ _ _ _ => true
+  | _, _ => false
   end.
+(* an IDENTIFY answer that announces a tls / deflate / snappy upgrade: the plain recording ends here *)
+Definition upgrades (r : oresp) : bool :=
+  match r with OJson _ _ _ _ tls deflate _ snappy => tls || deflate || snappy | _ => false end.
 
 Definition code_in (c : code) (l : list code) : bool := existsb (code_eqb c) l.
 
-Definition code_allowed (tlsreq : bool) (intent : option (list (N * Z * bool))) (m : nat) (i : N) : bool :=
-  match code_at i with
-  | None => false
-  | Some c =>
-    match intent with
-    | None => true
-    | Some l =>
-      code_eqb c E_INVALID || code_eqb c E_BAD_PROTOCOL ||
-      if is_fatal c
-      then existsb (fun k => code_in c (may_return_gated tlsreq k)) (window m l)
-      else existsb (fun e => snd e && code_in c (may_return (cmd_at (fst (fst e))))) l
+(* what the accepted commands did: messages published, finished, requeued, requeued with a
+   delay, and the slots that are no longer in flight *)
+Record tally := mkTally { t_pub : Z; t_fin : Z; t_req : Z; t_dfr : Z; t_dead : list Z }.
+
+Definition count_cmd (c : cmd) (n slot : Z) (t : tally) : tally :=
+  match c with
+  | CPub | CMpub | CDpub => mkTally (t_pub t + n) (t_fin t) (t_req t) (t_dfr t) (t_dead t)
+  | CFin => mkTally (t_pub t) (t_fin t + 1) (t_req t) (t_dfr t) (slot :: t_dead t)
+  | CReq => mkTally (t_pub t) (t_fin t) (t_req t + 1) (t_dfr t + n) (slot :: t_dead t)
+  | _ => t
+  end.
+
+Fixpoint align (tlsreq : bool) (ndeliv : Z) (k : skind) (t : tally) (intent : list icmd) (frames : list oframe)
+  : option tally :=
+  match intent with
+  | [] => match frames with [OClosed] => Some t | _ => None end     (* everything answered, then EOF *)
+  | (ci, n, valid, slot) :: r =>
+    let c := cmd_at ci in
+    match expected tlsreq k ndeliv (t_dead t) c valid slot with
+    | XSilent => align tlsreq ndeliv k (count_cmd c n slot t) r frames
+    | XResp =>
+      match frames with
+      | OResp x :: fr =>
+        if resp_ok c x then
+          if upgrades x then match fr with [] => Some t | _ => None end
+          else align tlsreq ndeliv (next_kind c k) (count_cmd c n slot t) r fr
+        else None
+      | _ => None
+      end
+    | XSoft e =>
+      match frames with
+      | OErr i :: fr => if (i =? code_idx e)%N then align tlsreq ndeliv k t r fr else None
+      | _ => None
+      end
+    | XFatal cs =>
+      match frames with
+      | [OErr i; OClosed] => match code_at i with Some e => if code_in e cs then Some t else None | None => None end
+      | _ => None
+      end
     end
   end.
 
-(* a fatal error is followed by the close and nothing else; the close is the last frame *)
+Definition is_ok_frame (f : oframe) : bool := match f with OResp _ => true | _ => false end.
+Definition n_ok (fs : list oframe) : nat := length (filter is_ok_frame fs).
+
+(* a fatal error is followed by the close and nothing else; the close is the last frame;
+   every code is one the protocol knows *)
 Fixpoint shape_ok (fs : list oframe) : bool :=
   match fs with
   | [] => true
@@ -227,39 +265,42 @@ Fixpoint shape_ok (fs : list oframe) : bool :=
   | OResp _ :: r => shape_ok r
   end.
 
-Definition ends_closed (fs : list oframe) : bool :=
-  match rev fs with OClosed :: _ => true | _ => false end.
-Definition has_fatal (fs : list oframe) : bool :=
-  existsb (fun f => match f with
-                    | OErr i => match code_at i with Some c => is_fatal c | None => true end
-                    | _ => false
-                    end) fs.
+(* the channel this connection consumed from, read from /stats after the case, against the
+   tally: every published message is still there unless it was FINished; exactly the
+   messages requeued with a delay are deferred; the requeue counter counts the REQs that
+   succeeded; what was delivered and not answered is still in flight *)
+Definition chan_ok (ndeliv : Z) (t : tally) (obs : Z * Z * Z * Z) : bool :=
+  match obs with
+  | (remaining, inflight, deferred, requeues) =>
+    (remaining =? t_pub t - t_fin t) && (deferred =? t_dfr t) && (requeues =? t_req t)
+    && (ndeliv - len (t_dead t) <=? inflight) && (inflight + deferred <=? remaining)
+  end.
 
-Definition monitor (cf : cfg) (frames : list oframe) (enq : Z) (alive bystander : bool)
-           (intent : option (list (N * Z * bool))) (held : option (Z * Z)) : bool :=
-  let m := n_ok frames in
-  let full := ends_closed frames && negb (has_fatal frames) in
+Definition monitor (cf : cfg) (ndeliv : Z) (frames : list oframe) (enq : Z) (alive bystander : bool)
+           (intent : option (list icmd)) (chan : option (Z * Z * Z * Z)) : bool :=
   alive && bystander
   && shape_ok frames
-  && forallb (fun f => match f with OErr i => code_allowed (c_tls_required cf) intent m i | _ => true end) frames
-  && (if (m =? 0)%nat then enq =? 0 else 0 <=? enq)
+  && (if (n_ok frames =? 0)%nat then enq =? 0 else 0 <=? enq)
   && match intent with
      | None => true
      | Some l =>
-       (* every executed command was acceptable; the accepted publishes account for every
-          message; and every command got its answer (a connection closed without a fatal
-          error frame has executed, and answered, everything it was sent) *)
-       match walk (c_tls_required cf) full m SInit l with Some (ok, s) => ok && (enq =? s) | None => false end
-     end
-  && match held with Some (e, o) => e =? o | None => true end.
+       match align (c_tls_required cf) ndeliv SInit (mkTally 0 0 0 0 []) l frames with
+       | Some t =>
+           (* the accepted publishes account for every message that appeared in the daemon
+              (a rejected PUB/DPUB/MPUB left nothing, an MPUB is all-or-nothing) *)
+           (enq =? t_pub t)
+           && match chan with Some obs => chan_ok ndeliv t obs | None => true end
+       | None => false
+       end
+     end.
 
 Definition judge (c : case) : N :=
   match c with
-  | Conn cf stream jsons delivered full frames enq alive bystander intent held =>
+  | Conn cf stream jsons delivered full frames enq alive bystander intent chan =>
     let os := handle_conn cf (ledger delivered full) (json_of jsons) stream in
     let predicted := flat_map proj os in
     let agree := list_eqb oframe_eqb predicted frames && (count_enq os =? enq) in
-    verdict agree (monitor cf frames enq alive bystander intent held)
+    verdict agree (monitor cf (len delivered) frames enq alive bystander intent chan)
   end.
 
 (* short names for the driver's terms *)
